@@ -168,6 +168,28 @@ def run_history(steps, family, rec, case=None):
                 zoo.fit_fresh(ob)
         elif op == "construct_other":
             zoo.decoys(fam)
+        elif op == "reuse_check" and fam != "caltrack":
+            # a model object that was fitted to another meter and used, then fitted to this baseline, is this model
+            ob = dict(b, noise_seed=b["noise_seed"] + 70 + step[1], start_day=b["start_day"] + 20, noise=[0.05, 0.4][step[1] % 2])
+            m2, _ = zoo.fit_fresh(ob)
+            key, d = get_data(step[2], True)
+            try:
+                zoo.predict(m2, b, d)
+            except Exception:
+                pass
+            with contextlib.redirect_stdout(io.StringIO()):
+                m2.fit(zoo.build_baseline(b), ignore_disqualification=True)
+            if json.loads(m2.to_json()) != snapshot:
+                a, z = _flat(snapshot), _flat(json.loads(m2.to_json()))
+                diff = sorted(k for k in set(a) | set(z) if a.get(k) != z.get(k))
+                rec.violation(K + "/reused-object/model-differs", case, "an object fitted to another meter first serialises differently at %s" % diff[:4])
+            try:
+                dd = zoo.frame_bits_equal(zoo.predict(m2, b, d), zoo.predict(copy.deepcopy(pristine), b, d))
+                if dd:
+                    rec.violation(K + "/reused-object/prediction-differs", case, "span %s: %s" % (step[2], dd))
+            except Exception as e:
+                rec.note("reuse-predict-raises:" + type(e).__name__)
+            nontrivial = True
         elif op == "touch":
             key, d = get_data(step[1], True)
             f1 = d.df
@@ -231,6 +253,7 @@ step_strategy = st.one_of(
     st.tuples(st.just("serialise")),
     st.tuples(st.just("fit_other"), st.integers(0, 2)),
     st.tuples(st.just("construct_other")),
+    st.tuples(st.just("reuse_check"), st.integers(0, 1), st.integers(0, len(SPANS) - 1)),
     st.tuples(st.just("touch"), st.integers(0, len(SPANS) - 1)),
 )
 
@@ -400,7 +423,8 @@ def shards(tier, seed):
     for fam, k in (("daily", 3), ("billing", 2), ("hourly", 3), ("hourly_noisy", 1), ("hourly_partial", 2)):
         for i in range(k):
             out.append({"sub": "history", "family": fam, "n": 4 if q else 50, "steps": 7 if q else 25, "seed": mix(seed, ID, fam, i)})
-    out.append({"sub": "history", "family": "caltrack", "n": 2 if q else 10, "steps": 5 if q else 12, "seed": mix(seed, ID, "caltrack")})
+    for i in range(2):
+        out.append({"sub": "history", "family": "caltrack", "n": 2 if q else 8, "steps": 8 if q else 14, "seed": mix(seed, ID, "caltrack", i)})
     for i in range(4):
         out.append({"sub": "ctor", "n": 40 if q else 500, "seed": mix(seed, ID, "ctor", i)})
     return out
